@@ -479,7 +479,7 @@ class kLeastAbsErrorsCycles(walkmodel.AbstractWalkModelDiGraph):
         for u, v, data in self.G.edges(data=True):
             if self.flow_attr in data and (u,v) not in self.edges_to_ignore:
                 if (
-                    abs(data[self.flow_attr] - weight_from_walks[(u, v)])
+                    abs(float(data[self.flow_attr]) - weight_from_walks[(u, v)])
                     > tolerance * max(1,num_edge_walks_on_edges[(u, v)]) + solution_errors[(u, v)]
                 ):
                     utils.logger.debug(
